@@ -78,7 +78,28 @@ def _retains_on(scope, root_id, field, into_closures):
     return out
 
 
-def _levels(R, rid, fn, self_id, spec_levels, need_key):
+def _as_closure(q, arg):
+    """The predicate handed to `retain` as a closure node, whatever the spelling: a closure, a function of the crate passed by name
+    (`retain(helper)`: the closure `|k, v| helper(k, v)`, i.e. the helper's parameters and body), or a closure that only forwards its
+    parameters to such a function (`retain(|k, v| helper(k, v))`)."""
+    def of_fn(res):
+        fb = q.by_key.get(res.get("inst_key")) or q.by_key.get(res.get("key"))
+        if fb is not None and isinstance(fb.get("body"), dict) and res.get("dk") in ("Fn", "AssocFn"):
+            return {"k": "closure", "params": fb["params"], "body": fb["body"], "sp": fb.get("sp"), "key": fb.get("key"), "from_fn": True}
+        return None
+    if arg.get("k") == "path" and arg["res"].get("r") == "def":
+        return of_fn(arg["res"]) or arg
+    if arg.get("k") == "closure":
+        b = H.peel(arg["body"], refs=False)
+        if b.get("k") == "call" and (b.get("callee") or {}).get("r") == "def" and len(b["args"]) == len(arg["params"]):
+            pids = [p.get("id") if p.get("k") == "bind" else None for p in arg["params"]]
+            aids = [(H.local_of(a) or (None,))[0] for a in b["args"]]
+            if None not in pids and pids == aids:
+                return of_fn(b["callee"]) or arg
+    return arg
+
+
+def _levels(R, rid, q, fn, self_id, spec_levels, need_key):
     """level -> {retain, closure, k (id or None), v (id), body}. Missing/odd shapes -> anchor / unrecognised (fail closed)."""
     out = {}
     for lv in ORDER:
@@ -93,7 +114,7 @@ def _levels(R, rid, fn, self_id, spec_levels, need_key):
         if not R.anchor(rid, "%s level: `%s.%s.retain(..)`" % (lv, sl["parent"] or "self", sl["map"]), len(cands) == 1, sp=fn["sp"]):
             continue
         rt = cands[0]
-        clo = H.peel(rt["args"][0]) if rt["args"] else {}
+        clo = _as_closure(q, H.peel(rt["args"][0])) if rt["args"] else {}
         if clo.get("k") != "closure" or len(clo.get("params", [])) != 2:
             R.unrecognised(rid, "level:" + lv, "retain argument is not a two-parameter closure: %s" % H.render(clo)[:120], rt["sp"])
             continue
@@ -188,7 +209,7 @@ def r10_1(q, R, spec):
     if not R.anchor(rid, "remove_dummy(self, namespace)", len(pids) == 2, sp=fn["sp"]):
         return
     self_id, ns_param = pids
-    levels = _levels(R, rid, fn, self_id, spec["levels"], need_key=False)
+    levels = _levels(R, rid, q, fn, self_id, spec["levels"], need_key=False)
     lookup_keys = set()
     for lv in ORDER:
         L = levels.get(lv)
@@ -411,11 +432,32 @@ def _ns_lookup(q, R, rid, outer_keys):
         act = N.result_term(N.Norm(inner, ["self", "name"]))
         got = N.show(act) if act is not None else "<a `return` inside a construct that is not a search loop>"
         ok = act == want
-        if U.unmodelled_mutations(inner["body"]):
+        if _other_than_loop_counters(inner["body"], U.unmodelled_mutations(inner["body"])):
             ok, got = False, "mutation in the lookup function"
     R.inst(rid, "ns-lookup:Namespaces.get_namespace", ok, sp=inner["sp"], got=got,
            expect="%s: Ok(Namespace(i)) for the position i of the first name equal to the argument, otherwise an error" % N.show(want),
            detail="the namespace id is the position of the equal name")
+
+
+def _other_than_loop_counters(root, muts):
+    """mutations that are not the bookkeeping of an index loop: a local declared `let mut i = 0` whose only assignments are `i += 1`
+    (`while i < N { ..; i += 1; }`) is a loop counter; the normal-form term treats it as the position of the search loop."""
+    counters = set()
+    for n in H.walk(root):
+        if n.get("k") == "let" and n.get("pat", {}).get("k") == "bind" and "init" in n and H.const_value(n["init"]) == 0:
+            lid = n["pat"]["id"]
+            writes = [x for x in H.walk(root) if x.get("k") in ("assign", "assignop") and (H.place_root(x["l"])[0] or (None,))[0] == lid]
+            if writes and all(x["k"] == "assignop" and x.get("op") in ("+=", "+") and H.const_value(x["r"]) == 1 and H.local_of(x["l"]) for x in writes) \
+                    and not any(x.get("k") == "ref" and x.get("mut") and (H.local_of(x["e"]) or (None,))[0] == lid for x in H.walk(root)):
+                counters.add(lid)
+    out = []
+    for m in muts:
+        if m.get("k") == "let" and m.get("pat", {}).get("k") == "bind" and m["pat"]["id"] in counters:
+            continue
+        if m.get("k") in ("assign", "assignop") and (H.place_root(m["l"])[0] or (None,))[0] in counters:
+            continue
+        out.append(m)
+    return out
 
 
 # ===================================================================================== R10.2
@@ -444,7 +486,7 @@ def r10_2(q, R, spec):
     if not R.anchor(rid, "insert_dummy_and_contract_inner_names(self)", len(pids) == 1, sp=fn["sp"]):
         return
     self_id = pids[0]
-    levels = _levels(R, rid, fn, self_id, spec["levels"], need_key=True)
+    levels = _levels(R, rid, q, fn, self_id, spec["levels"], need_key=True)
     own_assigns = set()
     # local helper functions of this module may be inlined by the evaluator
     inline = {b["key"]: U.norm_body(b) for b in q.bodies if b["key"].startswith("quill::action::insert_dummy::") and b["key"] != fn["key"] and b.get("dk", "Fn") in ("Fn", "AssocFn")}
